@@ -189,6 +189,21 @@ pub fn judge(w: &World, s0: &Store, c: &Case) -> Judged {
     if !r.ok() {
         return Judged { class: format!("rejected:{}", crate::svm::err_name(r.code())), found, killed_state: None };
     }
+    // the same call with the depositors' liquidity vault / the insurance vault replaced by a depositor's own token
+    // account of that mint: the cover would not reach the bank
+    if c.ins > 0 && c.target == 0 {
+        for kind in [0u8, 1u8] {
+            let signer = act::signer_key(w, &c.signer, Some(0));
+            let base = Action::Bankruptcy { signer: c.signer.clone(), u: 0, b: 0 };
+            if let Some(i) = act::user_ix(w, &pre_exec, &Action::WithVaultSwap { base: Box::new(base), bank: 0, kind }, signer) {
+                let mut t = pre_exec.clone();
+                if process_tx(&mut t, &Tx::one(i, &[signer])).ok() {
+                    let which = if kind == 0 { "liquidity vault" } else { "insurance vault" };
+                    fail("C07.insurance_first", format!("bankruptcy accepted with a depositor's own token account in the place of the bank's {which}"));
+                }
+            }
+        }
+    }
     // ---- accepted: everything the statement demands
     let eq = health::health(&pre, &acct, Req::Equity).unwrap();
     let tol = eq.allow.clone() + rf::qfrac(1, 1_000_000_000);
